@@ -311,7 +311,8 @@ func metaTuples() []metaTuple {
 		big300[i] = byte(i)
 	}
 	for _, name := range [][]byte{{}, []byte("n")} {
-		for _, roy := range [][]byte{{}, uni.Big(10000), uni.Big(10001), {1, 0, 0, 0, 1}} {
+		for _, roy := range [][]byte{{}, uni.Big(10000), uni.Big(10001), {1, 0, 0, 0, 1}, {0x80, 0, 0, 0}, {0xff, 0xff, 0xff, 0xff}, {0, 0xc0, 0, 0, 0},
+			{1, 2, 3, 4, 0x90, 0, 0, 0}, {0x7f, 0xff, 0xff, 0xff}, {1, 0, 0, 0x27, 0x10}, {1, 0, 0, 0, 0, 0, 0, 0, 1}} {
 			for _, hash := range [][]byte{{}, []byte("h"), []byte("g")} {
 				for _, attr := range [][]byte{{}, []byte("a"), big300} {
 					for _, uris := range [][][]byte{{[]byte("u")}, {[]byte("u"), {}}, {[]byte("u"), []byte("v"), []byte("w")}} {
@@ -430,7 +431,20 @@ func c08Profiles(tier Tier) []*explore.Profile {
 			b2.Must(uni.SetRole(uni.E2, uni.S, uni.NFTRoles...))
 			m2 := metaTuple{name: []byte("n"), roy: uni.Big(5), hash: []byte{}, attr: []byte("a"), uris: [][]byte{[]byte("u")}, q: 3}
 			b2.Must(createWith(uni.E2, uni.S, m2))
-			return []explore.SeedState{{Name: "two-creators", W: b.W, Legs: b.Legs, Failed: b.Failed}, {Name: "two-creators-empty-hash", W: b2.W, Legs: b2.Legs, Failed: b2.Failed}}
+			// a0 has sent its whole holding to a contract that refuses it: the refund is in flight
+			// while a0 can receive the other creator's NFT under the same key
+			b3 := uni.SeedBuilder(env, "sft")
+			b3.Must(uni.SetRole(uni.E2, uni.S, uni.NFTRoles...))
+			b3.Must(createWith(uni.E2, uni.S, m))
+			if h := held(b3.W, uni.A0, tS1); h > 0 {
+				b3.Must(uni.NFTTransfer(uni.A0, uni.S1c, uni.S, 1, h))
+				b3.Refused(uni.Deliver(0))
+				if len(b3.W.Inflight) != 1 || !b3.W.Inflight[0].Refund {
+					b3.Fail("two-creators-refund: the refused delivery did not leave a refund in flight")
+				}
+			}
+			return []explore.SeedState{{Name: "two-creators", W: b.W, Legs: b.Legs, Failed: b.Failed}, {Name: "two-creators-empty-hash", W: b2.W, Legs: b2.Legs, Failed: b2.Failed},
+				{Name: "two-creators-refund", W: b3.W, Legs: b3.Legs, Failed: b3.Failed}}
 		},
 		Menu: func(w *world.World) []world.Action { return hopMenu(w, o, uni.S, []int64{1}, false) },
 	}
